@@ -98,10 +98,12 @@ def translate():
                         cwd=tdir, env=GOENV, timeout=600)
     if rc != 0:
         return False, "translator build failed:\n" + out
-    rc, out, _ = sh([os.path.join(BUILD, "translator"), REPO], timeout=120)
-    if rc != 0:
-        return False, "translator failed:\n" + out
     with Lock("coq"):
+        # second argument: translated kernel bodies (coq/gen/ExtractedCode.v, rewritten only when changed)
+        rc, out, _ = sh([os.path.join(BUILD, "translator"), REPO, os.path.join(COQ, "gen", "ExtractedCode.v")],
+                        timeout=180, stdout=None)
+        if rc != 0:
+            return False, "translator failed:\n" + out
         write_if_changed(os.path.join(COQ, "gen", "Extracted.v"), out)
     return True, ""
 
@@ -142,12 +144,32 @@ def theorem_names(pid):
     return re.findall(r"^\s*(?:Theorem|Lemma|Corollary)\s+([A-Za-z0-9_']+)", src, re.M)
 
 
+def tie_theorems(pid):
+    """(module, name) of every Theorem/Lemma/Example stated in the property's tie files."""
+    res = []
+    for tg in PROPS[pid].get("tie", []):
+        mod = os.path.basename(tg)[:-3]
+        f = os.path.join(COQ, "gen", mod + ".v")
+        if not os.path.exists(f):
+            continue
+        src = strip_coq_comments(open(f).read())
+        for n in re.findall(r"^\s*(?:Theorem|Lemma|Corollary|Example)\s+([A-Za-z0-9_']+)", src, re.M):
+            res.append((mod, n))
+    return res
+
+
 def print_assumptions(pid, bdir):
     """Returns {theorem: text}; uses Redirect so each answer lands in its own file."""
     names = theorem_names(pid)
     lines = ["From W.props Require Import %s." % pid]
     for n in names:
         lines.append('Redirect "%s" Print Assumptions %s.' % (os.path.join(bdir, "pa_" + n), n))
+    ties = [(m, n) for (m, n) in tie_theorems(pid) if os.path.exists(os.path.join(COQ, "gen", m + ".vo"))]
+    for m in sorted(set(m for m, _ in ties)):
+        lines.append("From W.gen Require %s." % m)
+    for m, n in ties:
+        lines.append('Redirect "%s" Print Assumptions W.gen.%s.%s.' % (os.path.join(bdir, "pa_%s.%s" % (m, n)), m, n))
+    names = names + ["%s.%s" % (m, n) for m, n in ties]
     vf = os.path.join(bdir, "Assumptions_%s.v" % pid)
     with open(vf, "w") as f:
         f.write("\n".join(lines) + "\n")
